@@ -116,6 +116,12 @@ LABELSETS = {
 }
 
 
+# looked up by the extra cases only (not drawn by rng.choice(sorted(LABELSETS))): string labels whose
+# FIRST class (in sorted order) is the shortest, so that an output array allocated with the first
+# label's width would truncate every other label (seed C17-a)
+LABELSETS_ALL = dict(LABELSETS, strlen=["bbbb", "a", "dddddd", "cc"])
+
+
 def _sizes(rng, k, n):
     """k class sizes summing to about n, each >= 2; balanced or skewed."""
     if rng.random() < 0.45:
@@ -164,7 +170,7 @@ def gen_cases(rng, tier):
                 r[rng.randrange(k)] = 1
             rows.append([[v, sum(r)] for v in r])
         ls = rng.choice(sorted(LABELSETS))
-        labels = LABELSETS[ls][:k]
+        labels = LABELSETS_ALL[ls][:k]
         cases.append({"kind": "basepredict", "labelset": ls, "k": k, "rows": rows,
                       "ytest": [rng.choice(labels) for _i in range(n)]})
     for _ in range(60 if tier == "quick" else 500):
@@ -212,6 +218,32 @@ def gen_cases(rng, tier):
                       "m": rng.randint(18, 22), "noise": rng.choice([0.3, 1.0, 2.5]),
                       "rs": rng.choice([0, 1, 7, 42, 123]), "ycont": rng.choice(["array", "series"]),
                       "unseen_test_label": rng.random() < 0.25, "members": mem, "spec": spec})
+    # column ensembles whose columns are specified by NAME, predicted on a frame that presents the
+    # same variables in ANOTHER ORDER: a member must read the variable the user named (seed C17-d);
+    # also by position with a reordered frame (then positions are what the user asked for)
+    for i in range(12 if tier == "quick" else 60):
+        k = rng.choice([2, 3, 3, 4])
+        n = rng.randint(max(8, 2 * k), 12)
+        mem = rng.choice([["iboss", "tsf"], ["tsf", "iboss"], ["iboss", "tsf", "iboss"], ["tsf", "tsf", "iboss"]])
+        spec = [{"by_name": True, "reorder": rng.randint(0, 99)}, {"by_name": True, "reorder": rng.randint(0, 99)},
+                {"by_name": True}, {"reorder": rng.randint(0, 99)},
+                {"by_name": True, "reorder": rng.randint(0, 99), "drop": rng.randint(0, 5)},
+                {"by_name": True, "reorder": rng.randint(0, 99), "empty": rng.randint(0, 5)}][i % 6]
+        cases.append({"kind": "clf", "clf": "colens", "seed": rng.randint(0, 10 ** 6), "k": k,
+                      "labelset": rng.choice(sorted(LABELSETS)), "sizes": _sizes(rng, k, n), "n_test": 4,
+                      "m": rng.randint(18, 22), "noise": rng.choice([1.0, 2.5]),
+                      "rs": rng.choice([0, 1, 7, 42, 123]), "ycont": rng.choice(["array", "series"]),
+                      "unseen_test_label": rng.random() < 0.25, "members": mem, "spec": spec})
+    # the vote counters with string labels of different lengths, the shortest first in classes_
+    for i in range(8 if tier == "quick" else 40):
+        k = rng.choice([3, 4])
+        n = rng.randint(max(8, 2 * k), 12)
+        name = ["boss", "cboss", "iboss", "muse"][i % 4]
+        cases.append({"kind": "clf", "clf": name, "seed": rng.randint(0, 10 ** 6), "k": k, "labelset": "strlen",
+                      "sizes": _sizes(rng, k, n), "n_test": 5,
+                      "m": rng.randint(BOSS_MIN_SERIES + 2, 24) if name == "boss" else rng.randint(12, 16),
+                      "noise": rng.choice([0.3, 1.0]), "rs": rng.choice([0, 1, 7, 42, 123]),
+                      "ycont": rng.choice(["array", "series"]), "unseen_test_label": False})
     # ContractableBOSS weights a member by (leave-one-out train accuracy)^4 measured on a 70 %
     # subsample: with two instances per class most left-out instances have no neighbour of their own
     # class, so members with accuracy 0 - and ensembles made of such members only - occur
@@ -278,7 +310,7 @@ def _problem(case, ncols=1):
     import pandas as pd
     r = np.random.RandomState(case["seed"])
     k, m = case["k"], case["m"]
-    labels = LABELSETS[case["labelset"]][:k]
+    labels = LABELSETS_ALL[case["labelset"]][:k]
     t = np.arange(m)
 
     def series(c):
@@ -443,7 +475,17 @@ def _run_clf(case):
         # a remainder estimator
         extra = 1 if (spec.get("extra_col") or spec.get("remainder")) else 0
         Xtr, ytr, Xte, yte = _problem(case, ncols=len(mem) + extra)
-        ests = [("m%d" % j, _make(n, (case["rs"] or 0) + j, case["m"]), [j]) for j, n in enumerate(mem)]
+        # column specifications by position, or (spec by_name) by the NAME of the variable; with names
+        # the test frame may present the same variables in another order (spec reorder)
+        def colspec(j):
+            return ["dim_%d" % j] if spec.get("by_name") else [j]
+        ests = [("m%d" % j, _make(n, (case["rs"] or 0) + j, case["m"]), colspec(j)) for j, n in enumerate(mem)]
+        if spec.get("reorder") is not None:
+            perm = list(Xte.columns)
+            np.random.RandomState(spec["reorder"]).shuffle(perm)
+            if perm == list(Xte.columns):
+                perm = perm[1:] + perm[:1]
+            Xte = Xte[perm]
         if spec.get("drop") is not None:
             ests.insert(spec["drop"] % (len(ests) + 1), ("dropped", "drop", [spec["drop"] % len(mem)]))
         if spec.get("empty") is not None:
@@ -452,11 +494,18 @@ def _run_clf(case):
         clf = ColumnEnsembleClassifier(ests, remainder=rem)
         _fit(clf, Xtr, _ycont(ytr, case["ycont"]))
         kind = "rows"
-        # the FITTED members, with the columns each was fitted on
-        members = [np.asarray(e.predict_proba(_get_column(Xte, col))) for _, e, col in clf.estimators_]
+        # the FITTED members on THEIR columns of the test frame: the columns the USER specified in
+        # `estimators` (not what the fitted object recorded in estimators_: a specification that the
+        # code resolved to training positions would hide a wrong column at prediction time); only
+        # the remainder has no user specification (positions computed by fit)
+        user_cols = {nm: col for nm, _e, col in ests}
+        members = [np.asarray(e.predict_proba(_get_column(Xte, user_cols.get(nm, col))))
+                   for nm, e, col in clf.estimators_]
         colens_info = {"n_spec": len(ests), "n_fitted": len(clf.estimators_),
                        "want_fitted": len(mem) + (1 if spec.get("remainder") else 0),
-                       "fitted_cols": [[int(c) for c in col] for _, _, col in clf.estimators_]}
+                       "fitted_cols": [[c if isinstance(c, str) else int(c) for c in col]
+                                       for _, _, col in clf.estimators_],
+                       "test_columns": [str(c) for c in Xte.columns]}
     else:
         Xtr, ytr, Xte, yte = _problem(case)
         clf = _make(name, case["rs"], case["m"])
@@ -498,7 +547,9 @@ def _run_clf(case):
         out["members"] = [[[_lab(v) for v in tc], [[_ratio(v) for v in row] for row in np.atleast_2d(m)]]
                           for tc, m in members]
         out["member_shapes"] = [list(np.shape(m)) for _, m in members]
-        if name == "stsf":
+        if name == "stsf" and hasattr(clf, "_predict_proba_for_estimator"):
+            # (an extra observation through the private per-tree method, as long as it exists under
+            #  this name; the property-level clauses do not depend on it)
             out["method_rows"] = [[[_ratio(v) for v in row] for row in np.atleast_2d(m)]
                                   for m in _stsf_method_rows(clf, Xte)]
     else:
@@ -531,7 +582,7 @@ def _run_basepredict(case):
     import pandas as pd
     from sklearn.preprocessing import LabelEncoder
     from sktime.classification.base import BaseClassifier
-    labels = LABELSETS[case["labelset"]][:case["k"]]
+    labels = LABELSETS_ALL[case["labelset"]][:case["k"]]
     rows = np.array([[a / b for a, b in row] for row in case["rows"]], dtype=float)
 
     class Scripted(BaseClassifier):
@@ -956,7 +1007,7 @@ def coq_model_term(case):
         return "get_intervals %d%%nat %s%%Z %s%%Z %s" % (case["ni"], cz(case["mi"]), cz(case["sl"]),
                                                        _zl(case["draws"]))
     if k == "basepredict":
-        labels = LABELSETS[case["labelset"]][:case["k"]]
+        labels = LABELSETS_ALL[case["labelset"]][:case["k"]]
         cl = clist([_clab(_lab(v)) for v in labels])
         return "map (fun r => predict_label (classes_of label_leb label_eqb %s) r) %s" % (
             cl, clist([_cqs(r) for r in case["rows"]]))
